@@ -229,6 +229,27 @@ func c08peval(r *verifkit.Result, c *c08pcase) (out []c08pviol) {
 		mode = "fast"
 	}
 	r.Eval(1)
+	// what is submitted (vacuity guards: counted whatever the implementation answers)
+	r.Count("cases_submitted", 1)
+	if c.NoStats {
+		r.Count("cases_submitted_without_stats", 1)
+	}
+	if c.Inplace {
+		r.Count("cases_submitted_inplace", 1)
+	}
+	if c.MinIdentity > 0 && c.MinIdentity < 1 {
+		r.Count("cases_submitted_with_fractional_min_identity", 1)
+	}
+	if c.U != "" {
+		r.Count("cases_submitted_error_free_fragment_"+mode, 1)
+	}
+	// reading the record that AssemblePESequences returned (nil record, accessors that panic or call log.Fatal) is
+	// part of the behaviour under test: a verdict, not the end of the shard
+	defer func() {
+		if e := recover(); e != nil {
+			add("AssemblePESequences/"+mode+"/panic-while-reading-the-result", "the returned record cannot be read: %v", e)
+		}
+	}()
 	// 1. the path AssemblePESequences will work on (PEAlign is a function of its arguments; part 0 checks that)
 	var path []int
 	var isLeft bool
@@ -271,6 +292,10 @@ func c08peval(r *verifkit.Result, c *c08pcase) (out []c08pviol) {
 	r.Trans(1)
 	if pmsg != "" {
 		add("AssemblePESequences/"+mode+"/panic", "panics on valid path %v: %s", path, pmsg)
+		return
+	}
+	if cons == nil {
+		add("AssemblePESequences/"+mode+"/nil-result", "returns no record (valid path %v)", path)
 		return
 	}
 	r.Count("assembled", 1)
@@ -688,6 +713,12 @@ func c08psubst(s string, p int) string {
 	return string(b)
 }
 
+// c08pinstallExit: a logrus Fatal on the calling goroutine unwinds like a panic (and is judged as one by the guards
+// around the calls) instead of ending the process.
+func c08pinstallExit() {
+	log.StandardLogger().ExitFunc = func(code int) { panic(fmt.Sprintf("log.Fatal (exit status %d)", code)) }
+}
+
 type c08pcfg struct {
 	Fast, Rel bool
 	Delta     int
@@ -698,6 +729,7 @@ type c08pcfg struct {
 func TestVerifC08P(t *testing.T) {
 	log.SetOutput(io.Discard)
 	log.SetLevel(log.PanicLevel)
+	c08pinstallExit()
 	r := verifkit.New("C08")
 	defer r.Write()
 
@@ -853,16 +885,13 @@ func TestVerifC08P(t *testing.T) {
 			}
 		}
 	}
-	r.RequireNonVacuous("assembled")
-	r.RequireNonVacuous("alignment_records")
-	r.RequireNonVacuous("join_records")
-	r.RequireNonVacuous("mode_decided_join")
-	r.RequireNonVacuous("mode_decided_alignment")
-	r.RequireNonVacuous("reassembly_demanded_fast")
-	r.RequireNonVacuous("reassembly_demanded_exact")
-	r.RequireNonVacuous("assembled_without_stats")
-	r.RequireNonVacuous("assembled_inplace")
-	r.RequireNonVacuous("score_annotations_compared")
-	r.RequireNonVacuous("mode_decided_by_fractional_identity")
-	r.RequireNonVacuous("mode_decided_identity_equal_to_threshold")
+	// guards on what the harness submitted.  The counters that need answers of the implementation (assembled*,
+	// alignment_records, join_records, mode_decided_*, reassembly_demanded_*, score_annotations_compared) are reported in
+	// the evidence, not required.
+	r.RequireNonVacuous("cases_submitted")
+	r.RequireNonVacuous("cases_submitted_without_stats")
+	r.RequireNonVacuous("cases_submitted_inplace")
+	r.RequireNonVacuous("cases_submitted_with_fractional_min_identity")
+	r.RequireNonVacuous("cases_submitted_error_free_fragment_exact")
+	r.RequireNonVacuous("cases_submitted_error_free_fragment_fast")
 }
